@@ -4,7 +4,7 @@ import HeimdallModel.Gen.ReqView
 # C09 — forwarded headers from untrusted peers never influence a decision
 
 Theorems about the request-view model (`Model/NetAddr.lean`, `Model/ReqView.lean`; tied to the decision and proxy
-services by the correspondence check and to the header tables of the source by `Gen/ReqView.lean`).  Every statement
+services by the correspondence check and by the header tables measured on them, `Gen/ReqView.lean`).  Every statement
 quantifies over all `trusted_proxies` lists (valid, invalid, empty), all `RemoteAddr` strings, all requests, all header
 lines (any number, any casing, repeated), and every behaviour of `url.Parse` on `X-Forwarded-Uri` (`parse`).
 
@@ -14,26 +14,29 @@ defect of the unpatched code.
 namespace Heimdall.Props.C09
 open Heimdall.Fwd
 
-/-! ## the tables of the model are the tables of the source (regenerated on every run) -/
+/-! ## the tables of the model are the tables of the running code (measured on every run)
 
-/-- the names deleted for untrusted peers: `untrustedHeader` of trustedproxy/handler.go -/
-theorem c09_gen_strip_set : Heimdall.Gen.ReqView.stripSet = stripSet := by decide
+`Gen/ReqView.lean` is written by the check from the current tree: the deleted / influential names are *measured* on the
+real decision and proxy services (each candidate name alone and all together from an unlisted peer; each candidate
+alone with every kind of value from a listed peer), the inventory of forwarding-like names is syntactic but
+shape-independent. -/
 
-/-- the names read by extractMethod / extractURL / requestClientIPs / rewriteRequest -/
-theorem c09_gen_read_set : Heimdall.Gen.ReqView.readSet = readKeys := by decide
+/-- the names both services delete for unlisted peers are the model's `stripSet` -/
+theorem c09_gen_strip_set :
+    sameNames Heimdall.Gen.ReqView.stripDecision stripSet ∧ sameNames Heimdall.Gen.ReqView.stripProxy stripSet := by
+  decide
 
-/-- no string literal that looks like a forwarding header occurs in the request-context packages without being
-    deleted for untrusted peers; computed header names are read only by `Header()` / `Headers()` for mechanisms -/
+/-- the names that influence the view (decision, proxy) or the forwarded headers sent upstream (proxy) for a listed
+    peer are the model's `readKeys` -/
+theorem c09_gen_read_set :
+    sameNames Heimdall.Gen.ReqView.readDecision readKeys ∧ sameNames Heimdall.Gen.ReqView.readProxy readKeys := by
+  decide
+
+/-- no string that looks like a forwarding header occurs in the trusted-proxy, request-context, proxy or decision
+    package — as literal or constant, read from a header map or not — without being deleted for unlisted peers -/
 theorem c09_gen_every_forwarding_name_is_stripped :
-    (∀ k ∈ Heimdall.Gen.ReqView.mentioned, k ∈ stripSet) ∧
-      Heimdall.Gen.ReqView.dynamicReaders = ["requestcontext.Header", "requestcontext.Headers"] := by decide
-
-/-- rewriteRequest deletes what the model says it deletes and sets only the four re-created headers; both services
-    have the trusted-proxy middleware in their chain -/
-theorem c09_gen_rewrite_and_chain :
-    (∀ k ∈ outDel, k ∈ Heimdall.Gen.ReqView.outDel) ∧ (∀ k ∈ Heimdall.Gen.ReqView.outSet, k ∈ rpStripped) ∧
-      "trustedproxy.New" ∈ Heimdall.Gen.ReqView.chainDecision ∧
-      "trustedproxy.New" ∈ Heimdall.Gen.ReqView.chainProxy := by decide
+    (∀ k ∈ Heimdall.Gen.ReqView.mentioned, k ∈ stripSet) ∧ (∀ k ∈ Heimdall.Gen.ReqView.astReads, k ∈ stripSet) := by
+  decide
 
 /-! ## who is trusted -/
 
